@@ -41,6 +41,8 @@ func syncOptions(toks []string) (world.Options, []string) {
 			opt.DefaultBackend = t[len("opt~db="):]
 		case t == "opt~xns=1":
 			opt.Dyn.StaticCrossNamespaceSecrets = true
+		case t == "opt~subsets=1":
+			ops = append(ops, t) // a world op (Endpoints layout), not a controller option
 		case strings.HasPrefix(t, "opt~"):
 		default:
 			ops = append(ops, t)
@@ -399,6 +401,10 @@ func (g *syncGen) world(maxIng int) []string {
 	if r.Chance(1, 8) {
 		ops = append(ops, "opt~db="+gen.Pick(r, syncNamespaces)+"/"+gen.Pick(r, syncServices))
 	}
+	if r.Chance(1, 4) {
+		// Endpoints objects with several subsets carrying the selected port
+		ops = append([]string{"opt~subsets=1"}, ops...)
+	}
 	return ops
 }
 
@@ -475,6 +481,8 @@ var c03corpus = []string{
 	"svc+d/app!http:80:8080+adm:81:adm!- ep~d/app!10.0.1.1:r:app-1+10.0.1.2:n:app-2 sec+d/tls1!tls!1!a.local ing+d/i1@1!haproxy,-!-!a.local>/a:Prefix:app:80+/a:_:app:adm;_>/:Prefix:app:http;b.local>/:Prefix:app:adm!a.local>tls1!app:80",
 	// drain-support: not ready and terminating endpoints as weight 0
 	"cm~drain-support=true svc+d/app!http:80:8080!- ep~d/app!10.0.1.1:r:app-1+10.0.1.2:n:app-2 pod+d/app-5!10.0.1.5!app=app!t ing+d/i1@1!haproxy,-!-!a.local>/:Prefix:app:80!-!-",
+	// several Endpoints subsets carry the port: ready and (drain-support) not ready addresses of all of them
+	"opt~subsets=1 cm~drain-support=true svc+d/app!http:80:8080!- ep~d/app!10.0.1.1:r:app-1+10.0.1.2:r:app-2+10.0.1.3:n:app-3+10.0.1.4:n:app-4 ing+d/i1@1!haproxy,-!-!a.local>/:Prefix:app:80!-!-",
 	// --default-backend-service
 	"svc+d/web!http:80:8080!- ep~d/web!10.0.3.1:r:web-1 svc+d/app!http:80:8080!- ing+d/i1@1!haproxy,-!-!a.local>/a:Exact:app:80!-!- opt~db=d/web",
 }
